@@ -9,12 +9,26 @@
 
     Names of domains, clients and upstreams are small integers chosen by the
     harness (0 is the empty string).  The per-name maps are kept as key-sorted
-    association lists; the cut to the 100 largest on serialisation is not
-    modelled (the harness uses fewer than 100 names).
+    association lists.  What is written to the file and what the readers see
+    is the *serialised* unit ([ser], unit.serialize): every per-name map cut
+    to its 100 largest counts ([cut100]; Go sorts a map's pairs with an
+    unstable sort, so which of several names tied at the 100th count survive
+    is not determined there: the model breaks ties by key and the evaluator
+    compares the part of a full list above its smallest count), and the time
+    sum replaced by [TimeAvg * NTotal] with [TimeAvg = uint32 (timeSum /
+    nTotal)] in whole microseconds (unit.deserialize).
 
-    Not modelled: processing-time averages (floats); [Entry.Result < 0], which
-    passes [validate] and then panics in [unit.add] (index out of range) before
-    anything is changed: [update_panics] says when, the state is unchanged. *)
+    The reset handler's clear() is not atomic with respect to the hourly flush
+    (it does not hold confMu): besides the atomic [OClear] (the legacy interval
+    handler, which does hold it) there are its three steps [OClearClose]
+    (db pointer swapped to nil, file closed), [OClearReopen] (file removed, new
+    database opened and stored) and [OClearFinish id] (current unit replaced),
+    between which updates and flushes may land.
+
+    Not modelled: per-upstream average times (floats); [Entry.Result < 0],
+    which passes [validate] and then panics in [unit.add] (index out of range)
+    before anything is changed: [update_panics] says when, the state is
+    unchanged. *)
 From Coq Require Import ZArith List Bool.
 Import ListNotations.
 Local Open Scope Z_scope.
@@ -30,12 +44,13 @@ Definition amap := list (Z * Z).          (* key-sorted, name -> count *)
 Record unit := {
   u_total : Z;
   u_nf : Z; u_f : Z; u_sb : Z; u_ss : Z; u_p : Z;     (* nResult[1..5] *)
-  u_dom : amap; u_blk : amap; u_cli : amap; u_up : amap
+  u_dom : amap; u_blk : amap; u_cli : amap; u_up : amap;
+  u_tsum : Z                                             (* timeSum, microseconds *)
 }.
 
 Definition empty_unit : unit :=
   {| u_total := 0; u_nf := 0; u_f := 0; u_sb := 0; u_ss := 0; u_p := 0;
-     u_dom := []; u_blk := []; u_cli := []; u_up := [] |}.
+     u_dom := []; u_blk := []; u_cli := []; u_up := []; u_tsum := 0 |}.
 
 Definition u_cat (c : cat) (u : unit) : Z :=
   match c with NF => u_nf u | F => u_f u | SB => u_sb u | SS => u_ss u | P => u_p u end.
@@ -58,7 +73,8 @@ Record entry := {
   e_res : Z;                    (* Entry.Result as given *)
   e_dom : Z;                    (* 0 = "" *)
   e_cli : Z;                    (* 0 = "" *)
-  e_ups : list (Z * bool)       (* upstream address, counted = !IsCached && Error == nil *)
+  e_ups : list (Z * bool);      (* upstream address, counted = !IsCached && Error == nil *)
+  e_time : Z                    (* ProcessingTime.Microseconds(), >= 0 *)
 }.
 
 (** Entry.validate *)
@@ -73,19 +89,19 @@ Definition incr_cat (c : cat) (u : unit) : unit :=
   match c with
   | NF => {| u_total := u_total u; u_nf := u_nf u + 1; u_f := u_f u; u_sb := u_sb u;
              u_ss := u_ss u; u_p := u_p u; u_dom := u_dom u; u_blk := u_blk u;
-             u_cli := u_cli u; u_up := u_up u |}
+             u_cli := u_cli u; u_up := u_up u; u_tsum := u_tsum u |}
   | F  => {| u_total := u_total u; u_nf := u_nf u; u_f := u_f u + 1; u_sb := u_sb u;
              u_ss := u_ss u; u_p := u_p u; u_dom := u_dom u; u_blk := u_blk u;
-             u_cli := u_cli u; u_up := u_up u |}
+             u_cli := u_cli u; u_up := u_up u; u_tsum := u_tsum u |}
   | SB => {| u_total := u_total u; u_nf := u_nf u; u_f := u_f u; u_sb := u_sb u + 1;
              u_ss := u_ss u; u_p := u_p u; u_dom := u_dom u; u_blk := u_blk u;
-             u_cli := u_cli u; u_up := u_up u |}
+             u_cli := u_cli u; u_up := u_up u; u_tsum := u_tsum u |}
   | SS => {| u_total := u_total u; u_nf := u_nf u; u_f := u_f u; u_sb := u_sb u;
              u_ss := u_ss u + 1; u_p := u_p u; u_dom := u_dom u; u_blk := u_blk u;
-             u_cli := u_cli u; u_up := u_up u |}
+             u_cli := u_cli u; u_up := u_up u; u_tsum := u_tsum u |}
   | P  => {| u_total := u_total u; u_nf := u_nf u; u_f := u_f u; u_sb := u_sb u;
              u_ss := u_ss u; u_p := u_p u + 1; u_dom := u_dom u; u_blk := u_blk u;
-             u_cli := u_cli u; u_up := u_up u |}
+             u_cli := u_cli u; u_up := u_up u; u_tsum := u_tsum u |}
   end.
 
 (** unit.add for a result code in 1..5 *)
@@ -97,7 +113,36 @@ Definition add_cat (c : cat) (e : entry) (u : unit) : unit :=
      u_dom := match c with NF => bump_by (e_dom e) 1 (u_dom u1) | _ => u_dom u1 end;
      u_blk := match c with NF => u_blk u1 | _ => bump_by (e_dom e) 1 (u_blk u1) end;
      u_cli := bump_by (e_cli e) 1 (u_cli u1);
-     u_up := ups |}.
+     u_up := ups;
+     u_tsum := u_tsum u1 + e_time e |}.
+
+(** * Serialisation: unit.serialize / unit.deserialize *)
+
+(** convertMapToSlice(m, 100): the pairs with the 100 largest counts.  A pair
+    is kept when fewer than 100 pairs come before it in the order "larger
+    count first, smaller key first among equal counts". *)
+Definition before (a b : Z * Z) : bool :=
+  (snd b <? snd a) || ((snd a =? snd b) && (fst a <? fst b)).
+
+Definition rank (m : amap) (b : Z * Z) : Z := Z.of_nat (length (filter (fun a => before a b) m)).
+
+Definition max_top := 100.
+
+Definition cut100 (m : amap) : amap :=
+  if Z.of_nat (length m) <=? max_top then m else filter (fun b => rank m b <? max_top) m.
+
+(** TimeAvg of a unit: uint32(timeSum / nTotal), 0 for an empty unit. *)
+Definition time_avg (u : unit) : Z :=
+  if u_total u =? 0 then 0 else u32 (u_tsum u / u_total u).
+
+(** serialize followed by deserialize: what a stored unit is, and what a
+    reader is handed for the current unit. *)
+Definition ser (u : unit) : unit :=
+  {| u_total := u_total u;
+     u_nf := u_nf u; u_f := u_f u; u_sb := u_sb u; u_ss := u_ss u; u_p := u_p u;
+     u_dom := cut100 (u_dom u); u_blk := cut100 (u_blk u);
+     u_cli := cut100 (u_cli u); u_up := cut100 (u_up u);
+     u_tsum := time_avg u * u_total u |}.
 
 (** * The database: id -> stored unit *)
 
@@ -122,7 +167,8 @@ Record state := {
   cur : unit;        (* s.curr *)
   db : db_t;         (* stats.db *)
   lim_ms : Z;        (* s.limit in milliseconds *)
-  enabled : bool     (* s.enabled *)
+  enabled : bool;    (* s.enabled *)
+  dbnil : bool       (* s.db holds nil: clear() has closed the file and not yet reopened it *)
 }.
 
 Definition ms_hour := 3600000.
@@ -135,10 +181,13 @@ Definition lim (s : state) : Z := lim_ms s / ms_hour.
 Definition valid_ivl (ms : Z) : bool := (ms_hour <=? ms) && (ms <=? 365 * ms_day).
 
 Definition with_cur (s : state) (i : Z) (u : unit) (d : db_t) : state :=
-  {| cur_id := i; cur := u; db := d; lim_ms := lim_ms s; enabled := enabled s |}.
+  {| cur_id := i; cur := u; db := d; lim_ms := lim_ms s; enabled := enabled s; dbnil := dbnil s |}.
 
 Definition with_conf (s : state) (ms : Z) (en : bool) : state :=
-  {| cur_id := cur_id s; cur := cur s; db := db s; lim_ms := ms; enabled := en |}.
+  {| cur_id := cur_id s; cur := cur s; db := db s; lim_ms := ms; enabled := en; dbnil := dbnil s |}.
+
+Definition with_nil (s : state) (b : bool) : state :=
+  {| cur_id := cur_id s; cur := cur s; db := db s; lim_ms := lim_ms s; enabled := enabled s; dbnil := b |}.
 
 (** New on a database [d] with the clock at [id]: delete the buckets below
     [id - limit - 1], load the bucket of the current hour if there is one. *)
@@ -147,7 +196,7 @@ Definition open_db (d : db_t) (ms : Z) (en : bool) (id : Z) : state :=
   let d' := db_del_below (u32 (id - l - 1)) d in
   {| cur_id := id;
      cur := match db_get id d' with Some u => u | None => empty_unit end;
-     db := d'; lim_ms := ms; enabled := en |}.
+     db := d'; lim_ms := ms; enabled := en; dbnil := false |}.
 
 (** New on a fresh file. *)
 Definition init (id ms : Z) (en : bool) : state := open_db [] ms en id.
@@ -171,18 +220,29 @@ Definition update_panics (s : state) (e : entry) : bool :=
 Definition flush (s : state) (id : Z) : state :=
   let l := lim s in
   if (l =? 0) || (cur_id s =? id) then s
+  else if dbnil s then s                  (* flushDB: db == nil, try again later *)
   else with_cur s id empty_unit
-         (db_del (u32 (id - l)) (db_put (cur_id s) (cur s) (db s))).
+         (db_del (u32 (id - l)) (db_put (cur_id s) (ser (cur s)) (db s))).
+
+(** flush's first result: does the periodic flusher go on?  It stops only
+    when there is no current unit, which does not happen after New. *)
+Definition flush_cont (s : state) (id : Z) : bool := true.
 
 (** Close *)
-Definition close_db (s : state) : db_t := db_put (cur_id s) (cur s) (db s).
+Definition close_db (s : state) : db_t := db_put (cur_id s) (ser (cur s)) (db s).
 
 (** Close, then New with the same configuration and the clock at [id]. *)
 Definition restart (s : state) (id : Z) : state :=
   open_db (close_db s) (lim_ms s) (enabled s) id.
 
 (** clear with unitIDGen() = id *)
-Definition clear (s : state) (id : Z) : state := with_cur s id empty_unit [].
+Definition clear (s : state) (id : Z) : state := with_nil (with_cur s id empty_unit []) false.
+
+(** The three steps of clear() as run by POST /control/stats_reset, which
+    does not hold confMu: other operations may run between them. *)
+Definition clear_close (s : state) : state := with_nil s true.
+Definition clear_reopen (s : state) : state := with_nil (with_cur s (cur_id s) (cur s) []) false.
+Definition clear_finish (s : state) (id : Z) : state := with_cur s id empty_unit (db s).
 
 (** setLimit (POST /control/stats_config after checkInterval) *)
 Definition checked_days (d : Z) : bool :=
@@ -203,7 +263,10 @@ Inductive op :=
   | ORestart (id : Z)
   | OClear (id : Z)
   | OSetDays (d id : Z)
-  | OPutConfig (ms : Z) (en : bool).
+  | OPutConfig (ms : Z) (en : bool)
+  | OClearClose
+  | OClearReopen
+  | OClearFinish (id : Z).
 
 Definition step (s : state) (o : op) : state :=
   match o with
@@ -213,6 +276,9 @@ Definition step (s : state) (o : op) : state :=
   | OClear id => clear s id
   | OSetDays d id => set_limit_days s d id
   | OPutConfig ms en => put_config s ms en
+  | OClearClose => clear_close s
+  | OClearReopen => clear_reopen s
+  | OClearFinish id => clear_finish s id
   end.
 
 Definition run (s : state) (h : list op) : state := fold_left step h s.
@@ -230,7 +296,7 @@ Definition stored (s : state) (i : Z) : unit :=
   match db_get i (db s) with Some u => u | None => empty_unit end.
 
 Definition load_units (s : state) : list unit :=
-  map (stored s) (window_ids s) ++ [cur s].
+  map (stored s) (window_ids s) ++ [ser (cur s)].
 
 Definition zsum (l : list Z) : Z := fold_right Z.add 0 l.
 
@@ -249,8 +315,15 @@ Record data := {
   d_days : bool;                 (* time_units = "days" *)
   d_dns : list Z; d_blocked : list Z; d_sb : list Z; d_par : list Z;
   d_num : Z; d_num_f : Z; d_num_sb : Z; d_num_ss : Z; d_num_p : Z;
-  d_top_dom : amap; d_top_blk : amap; d_top_cli : amap; d_top_up : amap
+  d_top_dom : amap; d_top_blk : amap; d_top_cli : amap; d_top_up : amap;
+  d_avg : Z                      (* avg_processing_time in whole microseconds *)
 }.
+
+(** dataFromUnits: sum.TimeAvg (uint32) over all units, divided by the number
+    of units with a non-zero TimeAvg. *)
+Definition avg_time (us : list unit) : Z :=
+  let n := Z.of_nat (length (filter (fun u => negb (time_avg u =? 0)) us)) in
+  if n =? 0 then 0 else u32 (zsum (map time_avg us)) / n.
 
 Definition series (days : bool) (cur_hour ndays : Z) (l : list Z) : list Z :=
   if days then
@@ -271,10 +344,15 @@ Definition get_data (s : state) : data :=
      d_num := zsum (map u_total us);
      d_num_f := zsum (map u_f us); d_num_sb := zsum (map u_sb us);
      d_num_ss := zsum (map u_ss us); d_num_p := zsum (map u_p us);
-     d_top_dom := fold_left merge (map u_dom us) [];
-     d_top_blk := fold_left merge (map u_blk us) [];
-     d_top_cli := fold_left merge (map u_cli us) [];
-     d_top_up := fold_left merge (map u_up us) [] |}.
+     d_top_dom := cut100 (fold_left merge (map u_dom us) []);
+     d_top_blk := cut100 (fold_left merge (map u_blk us) []);
+     d_top_cli := cut100 (fold_left merge (map u_cli us) []);
+     d_top_up := cut100 (fold_left merge (map u_up us) []);
+     d_avg := avg_time us |}.
+
+(** GET /control/stats: 500 "Couldn't get statistics data" while the database
+    pointer is nil. *)
+Definition api_stats (s : state) : option data := if dbnil s then None else Some (get_data s).
 
 (** Sum of nResult[RNotFiltered] over the loaded units (not in the API answer;
     read by the harness through loadUnits). *)
